@@ -14,7 +14,7 @@ def run(tier):
     progs += [en.Prog(n + "-lim2", en.st.CURATED[n], sublimit=2) for n in ("deep3", "nestedortho")]
     classes = en.cls("GUARD") | (en.cls("REQ") if thorough else 0)
     args = ["--tier", tier, "--dev", "2" if thorough else "1", "--batch", "2" if thorough else "1", "--classes", str(classes),
-            "--dev-immediate", "1", "--imm-reduced", "0" if thorough else "1", "--deadline", str(1500 if thorough else 150)]
+            "--dev-immediate", "1", "--imm-reduced", "0" if thorough else "1", "--deadline", str(en.TD if thorough else 150)]
     if thorough:
         args += ["--initial-cancel", "1"]
     if not thorough:
@@ -37,7 +37,7 @@ def run(tier):
             p.args = ["--dev", "1", "--batch", "1", "--deadline", "90"]
         progs += fam
         chk.coverage["program_families"] = {"programs": len(fam), "rule": "all ordered trees with <= 4 states (every region kind headed; composite/resumable/orthogonal also headless) + spine family (kind chains of depth 3 in two orientations, depth 4 over C/O/R)"}
-    res = en.run_all(chk, "C04", progs, args, timeout=(2400 if thorough else 400))
+    res = en.run_all(chk, "C04", progs, args, timeout=(en.TD + 900 if thorough else 400))
     en.aggregate(chk, res, "C04")
     chk.coverage["explanation"] = (
         "From every reachable quiescent state, every request op is run with every guard decision vector of <= dev "
